@@ -236,10 +236,4 @@ def clauses : List (String × (Input → Trace → Bool)) :=
 
 def holds (i : Input) (t : Trace) : Bool := clauses.all fun c => c.2 i t
 
-/-- known finding `tfrOwnFailfastDirect`: `failfast` assigned on a `ThreadsafeForwardingResult` object that is
-reported to directly -/
-def tfrOwnFailfastDirect (i : Input) : Bool :=
-  (match i.shape with | .tfr _ => true | _ => false) &&
-  i.hist.any fun | .setFailfast true => true | _ => false
-
 end TTV.Spec.C04
